@@ -829,6 +829,12 @@ func C17(c *core.Ctx) {
 		}
 		c.Decide(bad == "" && nLit >= 2, "R17.5", "every-outpkt-names-incoming-face", "-", fmt.Sprintf("%d OutPkt constructions, each with a non-nil InFace (IdPtr, address of a local, or a nil-checked field)", nLit), "an OutPkt is built without a (provably non-nil) incoming face ("+bad+"): when it is sent to the management thread's internal face the frame carries no IncomingFaceId and InternalTransport.Receive dereferences nil")
 	}
+	// ---- R17.18 (shared with C10 R10.17) "never crashes": an MTU that management accepts never
+	// leads to a division by zero in the send path
+	c.Import(C10, "R17.18", "the send path divides by the payload room without having established that it is positive: an MTU that faces/create or faces/update accepts, with a PIT token that uses up the room, crashes the forwarder", 1, func(k string) bool {
+		return strings.HasPrefix(k, "R10.17:divisor-positive")
+	})
+
 }
 
 // isDerefOfField: v is *(X.field) for some X.
